@@ -60,11 +60,12 @@ def isExpired (now : Int) (d : Dt) : Bool :=
   else if !isTriggered now d && decide (d.fin < now) then true
   else false
 
-/-- downtime.cpp:447-461 (the three early returns as one guard). -/
+/-- downtime.cpp:447-462 (the three early returns as one guard; fixed downtimes can be triggered during
+    `[start, end)`, flexible ones during `[start, end]`). -/
 def canBeTriggered (now : Int) (d : Dt) : Bool :=
   !(isInEffect now d && isTriggered now d) &&    -- :449
   !isExpired now d &&                             -- :452
-  !(decide (now < d.start) || decide (now > d.fin))  -- :457
+  !(decide (now < d.start) || (if d.fixed then decide (now ≥ d.fin) else decide (now > d.fin)))  -- :458
 
 /-- downtime.cpp:481: where the cleanup timer is put (it fires 0.1 s later). -/
 def cleanupPoint (d : Dt) : Int :=
@@ -91,14 +92,23 @@ def noteTriggered (d : Dt) : Dt :=
 def noteStarted (d : Dt) : Dt :=
   { d with starts := if d.fixed then d.starts + 1 else d.starts }
 
-/-- The two updates below carry the guard under which the code performs them on the object itself
-    (`if (!CanBeTriggered()) return;` resp. `if (GetFixed() && CanBeTriggered())`), so that they are
-    guarded for whichever list element carries the name. -/
-def markTriggeredG (now t : Int) (d : Dt) : Dt :=
-  if canBeTriggered now d then markTriggered t d else d
+/-- What `TriggerDowntime` does to the object itself once its guard is passed: trigger time, cleanup
+    timer, and the `OnDowntimeTriggered` signal.  The signal is emitted after the cascade
+    (downtime.cpp:518); the ghost counters are bumped here, when the guard is passed — the number of
+    signals is the number of passes either way, and only per-operation counts are observed. -/
+def trigSelf (t : Int) (d : Dt) : Dt := noteTriggered (markTriggered t d)
 
-def noteStartedG (now : Int) (d : Dt) : Dt :=
-  if d.fixed && canBeTriggered now d then noteStarted d else d
+/-- … under the guard the code evaluates on the object itself (`if (!CanBeTriggered()) return;`). -/
+def trigSelfG (now t : Int) (d : Dt) : Dt :=
+  if canBeTriggered now d then trigSelf t d else d
+
+/-- `if (GetFixed() && CanBeTriggered()) { OnDowntimeStarted(this); TriggerDowntime(max(start, entry)); }`
+    (downtime.cpp:140-146, 549-557) on the object itself.  `TriggerDowntime` re-evaluates
+    `CanBeTriggered`; nothing it reads has changed in between, so the call is inlined. -/
+def startSelf (d : Dt) : Dt := trigSelf (max d.start d.entry) (noteStarted d)
+
+def startSelfG (now : Int) (d : Dt) : Dt :=
+  if d.fixed && canBeTriggered now d then startSelf d else d
 
 /-- `Downtime::TriggerDowntime` (downtime.cpp:485-519).  The recursion follows `triggers`; an edge is
     only ever added from an existing downtime to a newly created one (downtime.cpp:340-346), so the
@@ -111,9 +121,17 @@ def triggerDt : Nat → Int → Int → Nat → List Dt → List Dt
     | some d =>
       if !canBeTriggered now d then dts                   -- :487
       else
-        let dts1 := updateDt dts id (markTriggeredG now t)
-        let dts2 := d.triggers.foldl (fun acc c => triggerDt fuel now t c acc) dts1
-        updateDt dts2 id noteTriggered
+        d.triggers.foldl (fun acc c => triggerDt fuel now t c acc) (updateDt dts id (trigSelfG now t))
+
+/-- A fixed downtime that can be triggered notifies and triggers now (`Downtime::Start`,
+    downtime.cpp:140-146, and one iteration of `DowntimesStartTimerHandler`, downtime.cpp:545-559). -/
+def startAt (now : Int) (fuel : Nat) (dts : List Dt) (id : Nat) : List Dt :=
+  match findDt dts id with
+  | none => dts
+  | some d =>
+    if d.fixed && canBeTriggered now d then
+      d.triggers.foldl (fun acc c => triggerDt fuel now (max d.start d.entry) c acc) (updateDt dts id (startSelfG now))
+    else dts
 
 def liveIds (dts : List Dt) : List Nat := (dts.filter (fun d => !d.removed)).map (·.id)
 
@@ -164,20 +182,14 @@ def newDt (p : AddP) (now : Int) : Dt :=
     trigger := 0, triggers := [], owner := p.owner, removed := false, cleanup := none,
     starts := 0, ends := 0, trigEv := 0, remEv := 0 }
 
-/-- downtime.cpp:132-138: a flexible downtime on a checkable whose `state_raw` is not OK triggers now. -/
+/-- `Checkable::GetProblem` (checkable.cpp:206-211): there is a check result and its state is not OK. -/
+def St.problem (st : St) : Bool := st.lastExec.isSome && !isOK st.kind st.state
+
+/-- downtime.cpp:132-138: a flexible downtime on a checkable that has a problem triggers now. -/
 def startFlexible (st : St) (now : Int) (d : Dt) (dts : List Dt) : List Dt :=
-  if !d.fixed && !isOK st.kind st.state then
+  if !d.fixed && st.problem then
     triggerDt (dts.length + 1) now (max (max d.start d.entry) st.lastStateChange) d.id dts
   else dts
-
-/-- downtime.cpp:140-146: a fixed downtime that can be triggered notifies and triggers now. -/
-def startFixed (now : Int) (id : Nat) (dts : List Dt) : List Dt :=
-  match findDt dts id with
-  | none => dts
-  | some d =>
-    if d.fixed && canBeTriggered now d then
-      triggerDt (dts.length + 1) now (max d.start d.entry) id (updateDt dts id (noteStartedG now))
-    else dts
 
 /-- `Downtime::Resume` → `SetupCleanupTimer` (downtime.cpp:179-183, 463-483). -/
 def setupCleanup (d : Dt) : Dt := { d with cleanup := some (cleanupPoint d) }
@@ -194,7 +206,7 @@ def addOp (st : St) (p : AddP) (now : Int) : St × Nat :=
     let hasParent := p.trigBy != 0 && (findDt st.dts p.trigBy).isSome
     let dts := st.dts ++ [d]
     let dts := startFlexible st now d dts
-    let dts := startFixed now p.id dts
+    let dts := startAt now dts.length dts p.id
     let dts := updateDt dts p.id setupCleanup
     let dts := if hasParent then updateDt dts p.trigBy (addTrigger p.id) else dts
     ({ st with dts := dts }, 1)
@@ -224,17 +236,9 @@ def fireCleanup (now : Int) (d : Dt) : Dt :=
     (if isExpired now d then removeDt now d else { d with cleanup := none })
   else d
 
-/-- One downtime in `DowntimesStartTimerHandler` (downtime.cpp:545-559). -/
-def startTimerOne (now : Int) (fuel : Nat) (acc : List Dt) (i : Nat) : List Dt :=
-  match findDt acc i with
-  | none => acc
-  | some d =>
-    if canBeTriggered now d && d.fixed then
-      triggerDt fuel now (max d.start d.entry) i (updateDt acc i (noteStartedG now))
-    else acc
-
+/-- `DowntimesStartTimerHandler` (downtime.cpp:545-559). -/
 def startTimer (now : Int) (dts : List Dt) : List Dt :=
-  (liveIds dts).foldl (startTimerOne now (dts.length + 1)) dts
+  (liveIds dts).foldl (startAt now dts.length) dts
 
 /-- `Timer::VerifFireDue(now)`: cleanup timers that are due, the start timer if it is due (then re-armed
     for now + 5), and the cleanup timers that became due through it. -/
